@@ -209,9 +209,18 @@ func init() {
 		needEnd: true,
 		jobs: func(tier string) []*Job {
 			var js []*Job
+			idv := 0
 			add := func(tpl, ln, pn, cfg, skip, cs, ord int) {
-				js = append(js, &Job{Module: "mcap", Harness: "VC02Index", Params: P("tpl", tpl, "ln", ln, "pn", pn, "cfg", cfg, "skip", skip, "cs", cs, "ord", ord), TimeoutS: 900})
+				js = append(js, &Job{Module: "mcap", Harness: "VC02Index", Params: P("tpl", tpl, "ln", ln, "pn", pn, "cfg", cfg, "skip", skip, "cs", cs, "ord", ord, "idv", idv), TimeoutS: 900})
 			}
+			// schema/channel ids 65535 and 0, and the template with a message larger than the chunk size after small ones
+			idv = 1
+			add(5, 1, 2, 3, 1000+(1|8|64), 1, 2)
+			add(6, 1, 2, 3, 1000+(1|4|8), 1000, 0)
+			add(5, 1, 2, 3, 0, 1, 3)
+			idv = 0
+			add(8, 1, 80, 3, 0, 64, 2)
+			add(8, 1, 80, 3, 0, 64, 0)
 			if tier == "quick" {
 				for _, tpl := range []int{5, 6} {
 					for ord := 0; ord <= 3; ord++ {
@@ -235,7 +244,7 @@ func init() {
 			return js
 		},
 		bounds: map[string]any{
-			"quick":    map[string]any{"templates": "T1,T5,T6,T7", "options": "chunked/unchunked, chunk size 1 and 1000, 3-4 Skip* flags symbolic per job (the index-relevant ones)", "orders": "default, FileOrder, LogTimeOrder, ReverseLogTimeOrder", "symbolic": "all field values, listed flags"},
+			"quick":    map[string]any{"ids": "{1,2}; T5/T6 also with {65535,0}", "templates": "T1,T5,T6,T7, T8 (oversized message after small ones, chunk size 64)", "options": "chunked/unchunked, chunk size 1 and 1000, 3-4 Skip* flags symbolic per job (the index-relevant ones)", "orders": "default, FileOrder, LogTimeOrder, ReverseLogTimeOrder", "symbolic": "all field values, listed flags"},
 			"thorough": map[string]any{"templates": "T0,T1,T2,T5,T6,T7", "options": "5 base configurations x all 8 Skip* flags symbolic (256 combinations each)", "orders": "all 4"},
 		},
 		outside:     outsideCommon,
